@@ -41,15 +41,18 @@ static inline int parse_string(const uint8_t*& p, const uint8_t* end, uint8_t* o
       case 'r': v = 13; break;
       case 't': v = 9; break;
       case 'u': {
-        if (end - p < 4) return R_UNI;
+        // a literal that ends inside an escape is TRUNCATED (R_INVALID), not a malformed escape: only bytes that are present decide
         uint32_t cp = 0;
-        for (int i = 0; i < 4; i++) { int h = hexv(p[i]); if (h < 0) return R_UNI; cp = cp * 16 + h; }
+        for (int i = 0; i < 4; i++) { if (p + i >= end) return R_INVALID; int h = hexv(p[i]); if (h < 0) return R_UNI; cp = cp * 16 + h; }
         p += 4;
         if (cp >= 0xDC00 && cp <= 0xDFFF) return R_UNI;  // lone low surrogate
         if (cp >= 0xD800 && cp <= 0xDBFF) {
-          if (end - p < 6 || p[0] != '\\' || p[1] != 'u') return R_UNI;
+          if (p >= end) return R_INVALID;
+          if (p[0] != '\\') return R_UNI;
+          if (p + 1 >= end) return R_INVALID;
+          if (p[1] != 'u') return R_UNI;
           uint32_t lo = 0;
-          for (int i = 0; i < 4; i++) { int h = hexv(p[2 + i]); if (h < 0) return R_UNI; lo = lo * 16 + h; }
+          for (int i = 0; i < 4; i++) { if (p + 2 + i >= end) return R_INVALID; int h = hexv(p[2 + i]); if (h < 0) return R_UNI; lo = lo * 16 + h; }
           if (lo < 0xDC00 || lo > 0xDFFF) return R_UNI;
           p += 6;
           cp = 0x10000 + ((cp - 0xD800) << 10) + (lo - 0xDC00);
